@@ -93,9 +93,10 @@ PROPS = {
     "C03": {"batches": [B("membership", "membership", 160, 1600), B("election", "election", 60, 600),
                         B("general", "general", 40, 400)]},
     "C04": {"batches": [B("general", "general", 120, 1200), B("lag", "lag", 80, 800),
-                        B("durability", "durability", 60, 600), B("snapshot", "snapshot", 40, 400, masks=["batch_promote"])]},
+                        B("durability", "durability", 60, 600), B("snapshot", "snapshot", 40, 400, masks=["batch_promote"]),
+                        B("reelect", "reelect", 120, 1200)]},
     "C05": {"batches": [B("durability", "durability", 140, 1400), B("election", "election", 80, 800),
-                        B("general", "general", 60, 600)]},
+                        B("general", "general", 60, 600), B("reelect", "reelect", 120, 1200)]},
     "C06": {"batches": [B("general", "general", 120, 1200), B("durability", "durability", 80, 800),
                         B("lag", "lag", 40, 400), B("exposed_snapshot", "snapshot", 40, 400, masks=["batch_promote"])]},
     "C07": {"batches": [B("staletail", "staletail", 140, 1400), B("election", "election", 60, 600), B("lag", "lag", 60, 600),
